@@ -81,7 +81,7 @@ def scenarios(tier, seed):
                                 continue
                             out.append(dict(b2, mode="explicit", inf=list(inf), rec=list(rec), style="list", val=sorted(u - 1 for u in inf), a=0, b=1,
                                             variant="+".join(sorted(var))))
-                for (a, b) in ((1, 4), (1, 2), (3, 4), (1, n), (1, 8)):
+                for (a, b) in ((1, 4), (1, 2), (3, 4), (1, n), (1, 8), (0, 1)):      # rho = 0: nobody
                     out.append(dict(base, mode="rho", inf=[], rec=[], style="rho", val=None, a=a, b=b))
                 out.append(dict(base, mode="default", inf=[], rec=[], style="default", val=None, a=0, b=1))
                 if simruns.supports_R0(sim) and n >= 3:
